@@ -144,6 +144,9 @@ def build(quick):
         profs = list(itertools.product("0h", repeat=N))
         if N >= 5:
             profs = [p for p in profs if p.count("0") in (1, 2)][:: 2 if N == 5 else 5]
+        if N in (2, 3):
+            # profiles with hopeless-but-finite rows (ratio underflows to 0) ahead of / between the good ones
+            profs += [p for p in itertools.product("u0h", repeat=N) if "u" in p and any(c in "0h" for c in p)]
         bad = []
         for pos in range(N):
             for kind in "ni":
